@@ -48,6 +48,12 @@ PROPS = {
 }
 
 
+# the declarative spec M0 is ~50x slower than M1; since M1 = M0 is proved for these ops, M0 is executed on every N-th op line
+# only and the budget saved goes into more positions (harness budgets in harness/src/main.rs)
+M0_EVERY = {'legal': {'quick': 6, 'thorough': 6}, 'moves': {'quick': 4, 'thorough': 4}, 'san': {'quick': 6, 'thorough': 6},
+            'game': {'quick': 3, 'thorough': 3}}   # game: whole sessions are sampled (decided at g.new)
+
+
 def log(*a):
     print(*a, file=sys.stderr, flush=True)
 
@@ -199,8 +205,9 @@ def run_group(group, tier, seed, extra_env=None, force=False):
         if rc != 0:
             open(os.path.join(out, 'harness.log'), 'w').write(o)
             raise RuntimeError(f'harness failed on group {group}: rc={rc}: {o[-400:]}')
-        rc, o2 = sh([DRIVER_BIN, os.path.join(out, 'keys.txt'), os.path.join(out, 'ops.txt'), os.path.join(out, 'model.txt')] + (['lite'] if group == 'pgn' else []),
-                    timeout=7200)
+        m0every = M0_EVERY.get(group, {}).get(tier, 1)
+        rc, o2 = sh([DRIVER_BIN, os.path.join(out, 'keys.txt'), os.path.join(out, 'ops.txt'), os.path.join(out, 'model.txt')] + (['lite'] if group == 'pgn' else [])
+                    + ([f'm0every={m0every}'] if m0every > 1 else []), timeout=7200)
         t2 = time.time()
         if rc != 0:
             raise RuntimeError(f'driver failed on group {group}: rc={rc}: {o2[-400:]}')
@@ -276,7 +283,7 @@ def compare_group(prop, group, rundir, stats):
                 continue
         # successor observations belong to C02/C04/C05/C06/C07 only for moves the SPECIFICATION calls legal
         # (an illegal move the implementation wrongly accepts is C01/C03's finding, not theirs)
-        if op == 'mv' and prop != 'C03' and M0.get('r') != 'ok':
+        if op == 'mv' and prop != 'C03' and (M0.get('r') if 'r' in M0 else M1.get('r')) != 'ok':
             continue
         n += 1
         stats['per_op'][op] = stats['per_op'].get(op, 0) + 1
@@ -308,15 +315,21 @@ def compare_group(prop, group, rundir, stats):
                 if iv == 'panic' or iv is None:
                     findings.append(Finding(prop, group, lineno, opl, op, k, iv, mv, sv, 'decisive', list(session_ops)))
                 continue
+            # The specification M0 is the property's own predicate.  On valid inputs M1 = M0 is a theorem, so:
+            #   I != M0                -> the implementation violates the property on this input (decisive), whatever M1 says
+            #                             (I = M1 != M0 happens when a hypothesis of the theorems fails in the implementation's
+            #                              own data, e.g. a Zobrist collision or duplicate keys);
+            #   I == M0 != M1          -> my model is wrong: MODEL-DISAGREEMENT, never a verdict on /repo;
+            #   no M0 for this key     -> I is compared with M1.
+            # On a dumped position that is itself invalid (vp=0) only I vs M1 is compared.
+            if sv is not None and not invalid_pos:
+                if iv == sv:
+                    if mv != sv:
+                        model_disagreements.append(Finding(prop, group, lineno, opl, op, k, iv, mv, sv, 'model', list(session_ops)))
+                    continue
+                findings.append(Finding(prop, group, lineno, opl, op, k, iv, mv, sv, 'decisive', list(session_ops)))
+                continue
             if iv == mv:
-                if sv is not None and sv != mv and not invalid_pos:
-                    model_disagreements.append(Finding(prop, group, lineno, opl, op, k, iv, mv, sv, 'model', list(session_ops)))
-                continue
-            # implementation differs from the model
-            if sv is not None and sv == iv and not invalid_pos:
-                model_disagreements.append(Finding(prop, group, lineno, opl, op, k, iv, mv, sv, 'model', list(session_ops)))
-                continue
-            if invalid_pos and sv is not None and sv == iv:
                 continue
             findings.append(Finding(prop, group, lineno, opl, op, k, iv, mv, sv, 'decisive', list(session_ops)))
     stats['evaluations'] += n
